@@ -699,6 +699,9 @@ func checkC04(c *Ctx) {
 		}
 		c.Check(d == "", "R7", key, where, "as specified", d)
 	}
+	checkInitPositionsSpine(c, "R7", initFn)
+	checkPreviousOccupied(c, "R5")
+	checkSeatManagerConstruction(c, "R1")
 }
 
 func keysOf(m map[string]bool) []string {
@@ -825,6 +828,15 @@ func checkActiveCount(c *Ctx, f *ssa.Function) {
 			}
 			if nonnil && active && extra == 0 {
 				ok = true
+				// counted from zero, and the count is what is returned
+				for _, lf := range p.phiLeaves(bo.X) {
+					if lf.V == ssa.Value(bo) {
+						continue
+					}
+					if z, isZ := p.Sym(lf.V).ConstInt(); !isZ || z != 0 {
+						ok, d = false, "the active-player count does not start at 0"
+					}
+				}
 			}
 		}
 	}
